@@ -49,7 +49,7 @@ def decrypt(tok, jwk, enc, ser, measure=False):
     if measure:
         tracemalloc.start()
     try:
-        o = jwe.decrypt_compact(tok, key, registry=reg) if ser == "compact" else jwe.decrypt_json(tok, key, registry=reg)
+        o = jwe.decrypt_compact(J.F(tok), key, registry=reg) if ser == "compact" else jwe.decrypt_json(tok, key, registry=reg)
         res = ("plaintext", o.plaintext)
     except ExceededSizeError:
         res = ("exceeded", None)
@@ -342,6 +342,9 @@ def _run(ctx: Ctx, fresh) -> None:
         if what:
             ctx.violation(f"deflate:history [{' '.join(h)}] {ser} -> {what}", {"zip_history": h, "ser": ser, "enc": enc, "what": what})
     ctx.notes["zip_histories"] = len(ztasks)
+    # the life of one encryption object under zip=DEF (JweReuse.tla): every token it produces from an over-limit plaintext is refused
+    from . import reenc
+    ctx.evaluations += reenc.run(ctx, "C17")
     from . import c20
     pairs = [(kind, a, b, 1, ctx.seed, 30 if thorough else 8) for kind in (("oct256", "EC:P-256", "RSA2048") if thorough else ("oct256",))
              for a, b in (("decrypt_zip", "decrypt_zip_over"), ("decrypt_zip_over", "decrypt_zip_over"), ("decrypt_zip", "decrypt_zip"),
@@ -379,6 +382,9 @@ def replay(ctx: Ctx, rec: dict) -> None:
         print("ops", rec["ops"], "preempts", rec["preempts"], "-> problems now:", problems)
         if problems:
             ctx.violation(rec["signature"], {"problems": problems})
+    elif rec.get("reuse"):
+        from . import reenc
+        return reenc.replay(ctx, rec)
     elif "zip_history" in rec:
         _, what = zip_history((rec["zip_history"], rec["ser"], rec["enc"]))
         print(rec["zip_history"], rec["ser"], "->", what)
